@@ -4,7 +4,7 @@
 cd "$(dirname "$0")/.."
 CHECKS="${CHECKS:-C01 C02 C03 C04 C05 C06 C07 C08 C09 C10 C11 C12 C13 C14 C15 C16 C17 C18 C19 C20}"
 : > .work/matrix.log
-for p in seeded/*/patch.diff mutations/own/*.diff; do
+for p in ${PATCHES:-seeded/*/patch.diff mutations/own/*.diff}; do
     name=$(echo "$p" | sed 's|seeded/||; s|/patch.diff||; s|mutations/own/||; s|.diff||')
     r=$(MUTLAB=/tmp/mutlab-matrix OWLMC_BUDGET_S=${BUDGET:-25} tools/mutlab.sh "$p" quick $CHECKS 2>&1 | grep "DETECTED_BY")
     echo "$name $r" >> .work/matrix.log
